@@ -365,6 +365,243 @@ def gen_roundtrip(ctx, stack_results):
     return out
 
 
+
+# ---- operand representations, sequences, aliasing (second-wave themes A-E) ---------------------------
+def canon_op(o):
+    """canonical, comparable form of an operand (to check that a call does not alter what it was given)"""
+    if o is None or isinstance(o, (int, float, str, bool)):
+        return ("s", type(o).__name__, o)
+    if isinstance(o, np.ndarray):
+        return ("a", str(o.dtype), o.shape, o.tolist())
+    if isinstance(o, (list, tuple)):
+        return (type(o).__name__, [canon_op(x) for x in o])
+    if isinstance(o, dict):
+        return ("d", sorted((k, canon_op(v)) for k, v in o.items()))
+    if hasattr(o, "lo") and hasattr(o, "hi"):
+        return ("I", canon_op(np.asarray(o.lo)), canon_op(np.asarray(o.hi)))
+    if hasattr(o, "_intervals") and hasattr(o, "_masses"):
+        return ("DS", canon_op(o._intervals), canon_op(np.asarray(o._masses)))
+    return ("o", repr(type(o)))
+
+
+def variants(lo, hi, w, rng):
+    """every public way of handing the same DS structure to the library: (name, fn, args, kwargs)"""
+    stacking, mixture, DS, I, Staircase, Params = _api()
+    from pyuncertainnumber.pba.dss import dempstershafer_element
+    import pyuncertainnumber.pba as pba
+    ints = all(float(x).is_integer() and abs(x) < 2 ** 40 for x in lo + hi)
+    num = (lambda x: int(x)) if ints and rng.random() < 0.6 else (lambda x: float(x))
+    pairs = [(num(a), num(b)) for a, b in zip(lo, hi)]
+    n = len(pairs)
+    wl = [float(x) for x in w]
+
+    def mixed(kinds, need_list_before_interval=False):
+        for _ in range(50):
+            ks = [rng.choice(kinds) for _ in range(n)]
+            if not need_list_before_interval:
+                break
+            if any(ks[i] == "list" and any(k in ("I", "pbaI") for k in ks[i + 1:]) for i in range(n)):
+                break
+        else:
+            ks = ["list"] + ["I"] * (n - 1)
+        mk = {"list": lambda p: [p[0], p[1]], "tuple": lambda p: (p[0], p[1]), "I": lambda p: I(p[0], p[1]),
+              "pbaI": lambda p: pba.I(p[0], p[1]), "arr": lambda p: np.array([p[0], p[1]])}
+        return [mk[k](p) for k, p in zip(ks, pairs)], "".join(k[0] for k in ks)
+
+    dss = lambda intervals, masses: DS(intervals, masses).to_pbox()
+    dss_kw = lambda intervals, masses: DS(masses=masses, intervals=intervals).to_pbox()
+    V = []
+    V.append(("stacking:list-of-lists", stacking, ([[a, b] for a, b in pairs],), {"weights": list(wl)}))
+    V.append(("stacking:list-of-tuples", stacking, ([(a, b) for a, b in pairs],), {"weights": tuple(wl)}))
+    V.append(("stacking:tuple-of-lists", stacking, (tuple([a, b] for a, b in pairs),), {"weights": np.array(wl)}))
+    V.append(("stacking:list-of-Interval", stacking, ([I(a, b) for a, b in pairs],), {"weights": np.array(wl)}))
+    ops, pat = mixed(["list", "tuple", "I", "pbaI"])
+    V.append(("stacking:mixed", stacking, (ops,), {"weights": list(wl)}))
+    V.append(("stacking:2d-array", stacking, (np.array(pairs),), {"weights": list(wl)}))
+    V.append(("stacking:2d-float-array", stacking, (np.array(pairs, dtype=float),), {"weights": np.array(wl)}))
+    V.append(("stacking:vec-Interval", stacking, (I(np.array([a for a, _ in pairs]), np.array([b for _, b in pairs])),), {"weights": tuple(wl)}))
+    V.append(("pba.stacking", pba.stacking, ([[a, b] for a, b in pairs],), {"weights": list(wl)}))
+    V.append(("mixture:lists", mixture, tuple([a, b] for a, b in pairs), {"weights": list(wl)}))
+    V.append(("mixture:Intervals", mixture, tuple(I(a, b) for a, b in pairs), {"weights": np.array(wl)}))
+    ops, pat = mixed(["list", "I", "pbaI"], need_list_before_interval=True)
+    V.append(("mixture:mixed-list-before-Interval", mixture, tuple(ops), {"weights": list(wl)}))
+    ops, pat = mixed(["list", "I"])
+    V.append(("mixture:mixed", mixture, tuple(ops), {"weights": tuple(wl)}))
+    V.append(("pba.stochastic_mixture", pba.stochastic_mixture, tuple(pba.I(a, b) for a, b in pairs), {"weights": list(wl)}))
+    V.append(("dss:lists", dss, ([[a, b] for a, b in pairs], list(wl)), {}))
+    V.append(("dss:tuples", dss, ([(a, b) for a, b in pairs], tuple(wl)), {}))
+    V.append(("dss:Intervals", dss, ([I(a, b) for a, b in pairs], np.array(wl)), {}))
+    ops, pat = mixed(["list", "tuple", "I"])
+    V.append(("dss:mixed", dss, (ops, list(wl)), {}))
+    V.append(("dss:2d-array", dss, (np.array(pairs), np.array(wl)), {}))
+    V.append(("dss:vec-Interval", dss, (I([a for a, _ in pairs], [b for _, b in pairs]), list(wl)), {}))
+    V.append(("dss:keywords", dss_kw, ([[a, b] for a, b in pairs], list(wl)), {}))
+    V.append(("dss:from_dsElements", lambda els: DS.from_dsElements(els).to_pbox(),
+              ([dempstershafer_element(I(a, b), m) for (a, b), m in zip(pairs, wl)],), {}))
+    return V, ints and isinstance(pairs[0][0], int)
+
+
+def call_variant(fn, args, kwargs):
+    try:
+        p = fn(*args, **kwargs)
+        return p, ("ok", [float(x) for x in p.left], [float(x) for x in p.right])
+    except BaseException as e:  # noqa
+        return None, ("err", err_kind(e))
+
+
+def special_structures(rng, Gf):
+    """DS structures aimed at the second-wave themes: thin / tiny / extreme endpoints, tiny extreme masses"""
+    kind = rng.choice(["int-unequal", "int-unequal", "thin", "tiny", "extreme", "tiny-mass", "hit"])
+    n = rng.randint(2, 6)
+    if kind == "thin":            # relative width 1e-9 .. 1e-5, neighbours differing by as little
+        base = rng.uniform(1, 100)
+        eps = 10 ** rng.uniform(-9, -5)
+        lo = [base * (1 + k * eps) for k in range(n)]
+        hi = [x * (1 + eps * rng.uniform(0.5, 3)) for x in lo]
+    elif kind == "tiny":
+        sc = rng.choice([1e-9, 2 ** -60, 1.380649e-23, 1e-20])
+        lo = [sc * rng.randint(1, 9) for _ in range(n)]
+        hi = [x + sc * rng.randint(0, 6) for x in lo]
+    elif kind == "extreme":
+        sc = rng.choice([1e18, 1e15, 2.0 ** 70])
+        lo = [sc * rng.randint(-5, 5) for _ in range(n)]
+        hi = [x + sc * rng.randint(0, 4) for x in lo]
+        k = rng.randrange(n)
+        lo[k], hi[k] = -1e-20, 1e-20
+    else:
+        lo, hi = layout(rng, n, rng.choice(LAYOUTS), lambda: rng.randint(-9, 9))
+    idx = list(range(n))
+    rng.shuffle(idx)
+    lo, hi = [float(lo[i]) for i in idx], [float(hi[i]) for i in idx]
+    if kind == "tiny-mass":       # an extreme focal element that does not reach the first / last grid level
+        t = rng.choice([2.0 ** -11, 2.0 ** -12, 2.0 ** -13])
+        rest = dyadic_masses(rng, n - 1, 8) if n > 2 else [1.0]
+        w = [t] + [m * (1 - t) for m in rest]
+        k = lo.index(min(lo)) if rng.random() < 0.5 else hi.index(max(hi))
+        w[0], w[k] = w[k], w[0]
+    elif kind == "hit":
+        w = hit_masses(rng, n, Gf) or dyadic_masses(rng, n, 6)
+    else:
+        for _ in range(20):
+            w = dyadic_masses(rng, n, rng.choice([4, 6, 8]))
+            if len(set(w)) == n or n > 4:
+                break
+    return kind, lo, hi, [float(x) for x in w]
+
+
+def run_repr_stream(ctx, G, Gf):
+    """every entry point x every operand representation, unequal masses; operands must stay untouched; results are
+    kept alive and re-read later; the same focal elements with different masses in consecutive calls"""
+    rng = ctx.rng
+    alive = []            # (label, real result object, canonical value recorded when it was produced)
+
+    def reverify(where):
+        for label, obj, (l0, r0) in alive:
+            l1, r1 = [float(x) for x in obj.left], [float(x) for x in obj.right]
+            if l1 != l0 or r1 != r0:
+                i = next(i for i in range(len(l0)) if l1[i] != l0[i] or r1[i] != r0[i])
+                ctx.fail({"call": label, "symptom": "result-changed-later", "stream": "representations"},
+                         {"label": label, "index": i, "was": [l0[i], r0[i]], "now": [l1[i], r1[i]], "when": where},
+                         f"the p-box returned by {label} changed after later calls (step {i}: [{l0[i]},{r0[i]}] -> [{l1[i]},{r1[i]}])")
+        ctx.bump("alive-results-reverified", len(alive))
+
+    structs = [special_structures(rng, Gf) for _ in range(ctx.scale(70, 1200))]
+    replies = model_batch_par("C08", [f"stack {ql(lo)} {ql(hi)} {ql(w)}" for _, lo, hi, w in structs])
+    prev = None
+    for ci, ((kind, lo, hi, w), rep) in enumerate(zip(structs, replies)):
+        n = len(lo)
+        ctx.count(("repr", tuple(lo), tuple(hi), tuple(w)), True, "representations:" + kind)
+        em = exact_masses(n, w)
+        St = sum(em)
+        masses = [m / St for m in em]
+        ok_lo, amb_lo, _, _ = cmp_check(G, lo, w)
+        ok_hi, amb_hi, _, _ = cmp_check(G, hi, w)
+        exp_l = [float(v) for v in geninv(lo, masses, G)[0]]
+        exp_r = [float(v) for v in geninv(hi, masses, G)[0]]
+        model = parse_model(rep)
+        cj = {"stream": "representations", "kind": kind, "lo": lo, "hi": hi, "w": w}
+        V, as_int = variants(lo, hi, w, rng)
+        if as_int:
+            ctx.bump("representations:int-operands")
+        first_obj = None
+        for name, fn, args, kwargs in V:
+            snap = canon_op([args, kwargs])
+            obj, impl = call_variant(fn, args, kwargs)
+            ctx.bump("variant-calls")
+            # tie
+            if impl[0] == model[0] == "ok":
+                badm = [(sd, i) for sd, a, b, amb in (("left", impl[1], model[1], amb_lo), ("right", impl[2], model[2], amb_hi))
+                        for i, (x, y) in enumerate(zip(a, b)) if F(x) != y and i not in amb]
+                (ctx.tie_ok() if not badm else ctx.tie_bad("representations:" + name, cj, _short(impl), _short(model)))
+            else:
+                ctx.tie_bad("representations:" + name, cj, _short(impl), _short(model))
+            # oracle
+            if impl[0] == "err":
+                ctx.fail({"call": name, "symptom": "raises:" + impl[1], "stream": "representations"}, dict(cj, variant=name),
+                         f"{name} raises {impl[1]} on a valid DS structure ({kind}, {n} focal elements)")
+                continue
+            bad = [(sd, i) for sd, a, b, amb in (("left", impl[1], exp_l, amb_lo), ("right", impl[2], exp_r, amb_hi))
+                   for i, (x, y) in enumerate(zip(a, b)) if x != y and i not in amb]
+            if bad or len(impl[1]) != len(exp_l):
+                sd, i = bad[0] if bad else ("left", -1)
+                got = (impl[1] if sd == "left" else impl[2])[i]
+                want = (exp_l if sd == "left" else exp_r)[i]
+                ctx.fail({"call": name, "symptom": "not-geninv", "side": sd, "stream": "representations"},
+                         dict(cj, variant=name, index=i, got=got, want=want),
+                         f"{name}: {sd}[{i}] = {got}, generalised inverse of {'plausibility' if sd == 'left' else 'belief'} at level p[{i}] is {want}")
+            if canon_op([args, kwargs]) != snap:
+                ctx.fail({"call": name, "symptom": "operand-mutated", "stream": "representations"}, dict(cj, variant=name),
+                         f"{name} altered the operands it was given")
+            if first_obj is None:
+                first_obj = (name, fn, args, kwargs, impl)
+            alive.append((name, obj, (impl[1], impl[2])))
+        del alive[:-90]
+        # --- the same focal elements with other masses, one after the other (objects kept), then the first again
+        stacking, mixture, DS, I, *_ = _api()
+        w2 = w[1:] + w[:1]
+        if w2 != w:
+            m2 = [F(float(x)) for x in w2]
+            s2 = sum(m2)
+            e2l = [float(v) for v in geninv(lo, [m / s2 for m in m2], G)[0]]
+            e2r = [float(v) for v in geninv(hi, [m / s2 for m in m2], G)[0]]
+            a2l, a2r = cmp_check(G, lo, w2)[1], cmp_check(G, hi, w2)[1]
+            iv = [[a, b] for a, b in zip(lo, hi)]
+            ivI = [I(a, b) for a, b in zip(lo, hi)]
+            d1, d2 = DS(iv, list(w)), DS(iv, list(w2))
+            seq = [("dss(w1)", lambda: d1.to_pbox(), 1), ("dss(w2) same focal elements", lambda: d2.to_pbox(), 2), ("dss(w1) again", lambda: d1.to_pbox(), 1),
+                   ("stacking(w1)", lambda: stacking(ivI, weights=list(w)), 1), ("stacking(w2) same operands", lambda: stacking(ivI, weights=list(w2)), 2),
+                   ("mixture(w2)", lambda: mixture(*ivI, weights=list(w2)), 2), ("mixture(w1) same operands", lambda: mixture(*ivI, weights=list(w)), 1),
+                   ("DS(w2) fresh object", lambda: DS([list(x) for x in iv], list(w2)).to_pbox(), 2), ("DS(w1) fresh object", lambda: DS([list(x) for x in iv], list(w)).to_pbox(), 1)]
+            for label, f, which in seq:
+                obj, impl = call_variant(lambda: f(), (), {})
+                ctx.bump("sequence-calls")
+                el, er, al, ar = (exp_l, exp_r, amb_lo, amb_hi) if which == 1 else (e2l, e2r, a2l, a2r)
+                if impl[0] == "err":
+                    ctx.fail({"call": label, "symptom": "raises:" + impl[1], "stream": "sequence"}, dict(cj, w2=w2), f"{label} raises {impl[1]}")
+                    continue
+                bad = [(sd, i) for sd, a, b, amb in (("left", impl[1], el, al), ("right", impl[2], er, ar))
+                       for i, (x, y) in enumerate(zip(a, b)) if x != y and i not in amb]
+                if bad:
+                    sd, i = bad[0]
+                    ctx.fail({"call": label, "symptom": "not-geninv-in-sequence", "stream": "sequence"}, dict(cj, w2=w2, step=label, index=i),
+                             f"sequence of conversions with the same focal elements and different masses: {label} gives {sd}[{i}] = "
+                             f"{(impl[1] if sd == 'left' else impl[2])[i]}, expected {(el if sd == 'left' else er)[i]}")
+                alive.append((label, obj, (impl[1], impl[2])))
+            if canon_op(d1) != canon_op(DS(iv, list(w))) or canon_op(ivI) != canon_op([I(a, b) for a, b in zip(lo, hi)]):
+                ctx.fail({"call": "sequence", "symptom": "operand-mutated", "stream": "sequence"}, cj, "a DS structure / Interval operand was altered by converting it")
+        # --- the very first call of the previous case again, after all these unrelated calls
+        if prev is not None:
+            name, fn, args, kwargs, impl0 = prev
+            _, impl1 = call_variant(fn, args, kwargs)
+            if impl1 != impl0:
+                ctx.fail({"call": name, "symptom": "second-evaluation-differs", "stream": "representations"}, {"variant": name},
+                         f"{name}: evaluating the same call again after unrelated calls gives a different p-box")
+            ctx.bump("evaluated-twice")
+        prev = first_obj
+        if ci % 10 == 9:
+            reverify(f"after case {ci}")
+    reverify("end of run")
+
 # ---- comparison ------------------------------------------------------------------
 def diff_idx(impl, ref):
     """indices (side, i) where the implementation's bound differs from a reference given as Fractions"""
@@ -491,6 +728,8 @@ def run(ctx: core.Check):
                 ctx.fail({"call": "stacking", "symptom": "not-invariant", "role": m[0]["role"]},
                          {"base": {k: b[0][k] for k in ("lo", "hi", "w")}, "variant": {k: m[0][k] for k in ("lo", "hi", "w")}, "side": s, "index": i},
                          f"p-box changes under {m[0]['role']} of the focal elements ({s}[{i}])")
+    # --- operand representations / sequences / aliasing
+    run_repr_stream(ctx, G, Gf)
     # --- round trip
     rts = gen_roundtrip(ctx, stacked)
     rreps = model_batch_par("C08", [f"rt {ql(c['left'])} {ql(c['right'])}" for c in rts])
